@@ -344,8 +344,8 @@ func (g *gen) conflictFree(nyct, alerts bool) *gtfsrt.FeedMessage {
 		for k := 1 + g.r.Intn(3); k > 0; k-- {
 			sib := proto.Clone(base).(*gtfsrt.TripDescriptor)
 			var sib2 *gtfsrt.TripDescriptor
-			switch g.r.Intn(8) {
-			case 7:
+			switch g.r.Intn(9) {
+			case 8:
 				// direction_id 0 next to no direction_id at all: "absent" is not "0"
 				sib2 = proto.Clone(base).(*gtfsrt.TripDescriptor)
 				sib.DirectionId, sib2.DirectionId = nil, ptr(uint32(0))
@@ -375,10 +375,10 @@ func (g *gen) conflictFree(nyct, alerts bool) *gtfsrt.FeedMessage {
 				h, mi := g.r.Intn(6), g.r.Intn(60)
 				sib.StartDate, sib.StartTime = ptr("20240101"), ptr(fmt.Sprintf("%02d:%02d:00", 24+h, mi))
 				sib2.StartDate, sib2.StartTime = ptr("20240102"), ptr(fmt.Sprintf("%02d:%02d:00", h, mi))
-			default:
+			case 7, 5:
 				// identifiers that coincide once their parts are glued together with a separator: "1_2"+"3" vs "1"+"2_3"
 				sib2 = proto.Clone(base).(*gtfsrt.TripDescriptor)
-				sep := g.pick([]string{"_", "|", "/", ":", " ", "\x00", ",", "-", ";", ""})
+				sep := g.pick([]string{"_", "_", "/", "/", "/", "|", ":", " ", "\x00", ",", "-", ";", ""})
 				sib.TripId, sib.RouteId = ptr("1"+sep+"2"), ptr("3")
 				sib2.TripId, sib2.RouteId = ptr("1"), ptr("2"+sep+"3")
 			}
